@@ -198,6 +198,10 @@ class Network:
                     self.verified_peers.add(peer)
                     self.verified_by_public_key_bin[peer.public_key.key_to_bin()] = peer
                     list(map(methodcaller("on_peer_added", peer), self.peer_observers))
+            if self.verified_by_public_key_bin.get(peer.public_key.key_to_bin()) is peer:
+                # The peer may have advertised services before it was verified: forget the cached peer lists for them.
+                for service in self.services_per_peer.get(peer.public_key.key_to_bin(), ()):
+                    self.reverse_service_lookup.pop(service, None)
 
     def register_service_provider(self, service_id: Service, overlay: Overlay) -> None:
         """
